@@ -4,7 +4,7 @@ The Level structures are the *reference* view of each grammar (what its document
 definition is); they are written independently of the Rust builders and a disagreement between
 the two shows up as a violation on the very first run, so the pairing is self-checking.
 """
-from spec.grammar import Named, Pos, Cmd, Cmds, Level
+from spec.grammar import Named, Pos, Cmd, Cmds, Level, Group
 from .tok import Decl
 
 
@@ -104,3 +104,29 @@ add(Gram("c3", Level([
 ]), short_flags="vn", note="optional subcommand"))
 
 C01_GRAMMARS = ["g1", "g2", "g3", "p1", "p2", "p3", "p4", "p5", "c1", "c2", "c3"]
+
+
+add(Gram("v1", Level([
+    Named("arg", "a", ["alpha"], arity="req", guard=True),
+    Named("arg", "b", ["beta"], arity="opt", guard=True),
+    Named("arg", "c", ["gamma"], arity="many", guard=True),
+]), short_args="abc", note="guard under required / optional / many"))
+
+add(Gram("v2", Level([
+    Named("arg", "a", ["alpha"], arity="fallback", guard="parse", default=7),
+    Named("arg", "b", ["beta"], arity="last", guard="parse"),
+    Named("arg", "c", ["gamma"], arity="some", guard="parse"),
+]), short_args="abc", note="parse step under fallback / last / some"))
+
+add(Gram("v3", Level([
+    Pos("opt", guard=True),
+    Pos("fallback", default=3),
+]), note="guarded optional positional, defaulted positional"))
+
+_ab = [Named("arg", "a", ["alpha"], arity="req"), Named("arg", "b", ["beta"], arity="req")]
+add(Gram("o1", Level([Group(_ab, "opt"), Named("switch", "s", ["sw"])]), short_flags="s", short_args="ab",
+         note="optional group of two required arguments"))
+add(Gram("o2", Level([Group(_ab, "many"), Named("switch", "s", ["sw"])]), short_flags="s", short_args="ab",
+         note="repeated group of two required arguments"))
+
+C06_GRAMMARS = ["v1", "v2", "v3", "o1", "o2", "g1", "g2", "p1"]
